@@ -57,6 +57,8 @@ ASSUMPTIONS = [
     'permitopen port strings are ASCII digits with optional sign/blanks (other int() spellings are outside the '
     'parse model; the decision model takes the parsed set)',
     'two listeners of one connection never bind the same key (the kernel refuses the second bind)',
+    'a permitopen set that is present is non-empty (`_add_permitopen` always adds a pair), so "absent" and "empty" '
+    'coincide in the model; key options are always a dictionary (never None), an entry without options giving {}',
 ]
 
 
@@ -190,11 +192,19 @@ def keys() -> Dict[str, Any]:
     if not _KEYS:
         key = asyncssh.generate_private_key('ssh-ed25519')
         ca = asyncssh.generate_private_key('ssh-ed25519')
+        none = dict(permit_x11_forwarding=False, permit_agent_forwarding=False, permit_pty=False,
+                    permit_user_rc=False)
         _KEYS.update(
             key=key, ca=ca,
             pub=key.export_public_key().decode().strip(), capub=ca.export_public_key().decode().strip(),
+            # y: all permits; x: every permit but port forwarding; w: only permit-port-forwarding;
+            # z: no option at all (options decode to the EMPTY dictionary); c: critical options only
             y=ca.generate_user_certificate(key, 'user', principals=['user'], permit_port_forwarding=True),
-            x=ca.generate_user_certificate(key, 'user', principals=['user'], permit_port_forwarding=False))
+            x=ca.generate_user_certificate(key, 'user', principals=['user'], permit_port_forwarding=False),
+            w=ca.generate_user_certificate(key, 'user', principals=['user'], permit_port_forwarding=True, **none),
+            z=ca.generate_user_certificate(key, 'user', principals=['user'], permit_port_forwarding=False, **none),
+            c=ca.generate_user_certificate(key, 'user', principals=['user'], permit_port_forwarding=False,
+                                           force_command='true', source_address=['127.0.0.0/8'], **none))
     return _KEYS
 
 
@@ -232,7 +242,7 @@ def spec_allows(kind: str, nopf: bool, cert: str, po: List[Tuple[str, Optional[i
     """OpenSSH's documented rule, written independently of the model: no-port-forwarding forbids everything, a
     certificate must carry permit-port-forwarding, and permitopen (if given) limits direct-tcpip opens to the
     listed host:port pairs, `*` matching any port; hosts are compared literally"""
-    if nopf or cert == 'x':
+    if nopf or cert in ('x', 'z', 'c'):      # a certificate without permit-port-forwarding, whatever else it has
         return False
     if kind == 'dt' and po:
         pos = [('127.0.0.1' if h == 'LOOP' else h, p) for h, p in po]
@@ -257,9 +267,15 @@ async def perm_session(cfg: Tuple[bool, str, int], reqs: List[Tuple[str, str, in
         ak = 'cert-authority' + (',' + opts if opts else '') + ' ' + k['capub']
         ck = [(k['key'], k[cert])]
     box: Dict[str, Any] = {'auth': True}
-    c, s, hub = await pair.make_pair(server_factory=R.server_factory(box),
-                                     server_opts=dict(authorized_client_keys=asyncssh.import_authorized_keys(ak)),
-                                     client_opts=dict(client_keys=ck))
+    try:
+        c, s, hub = await pair.make_pair(server_factory=R.server_factory(box),
+                                         server_opts=dict(authorized_client_keys=asyncssh.import_authorized_keys(ak)),
+                                         client_opts=dict(client_keys=ck))
+    except (asyncssh.Error, OSError) as e:
+        # the credential was not accepted at all: every request is observed as such (never a harness crash)
+        return [dict(kind=kind, host='127.0.0.1' if host == 'LOOP' else host, port=port, app=app,
+                     verdict='auth-failed:' + type(e).__name__, asked=0, real=(host == 'LOOP'))
+                for kind, host, port, app in reqs]
     out = []
     for kind, host, port, app in reqs:
         real = (host == 'LOOP')
@@ -359,7 +375,11 @@ async def run_perm_configs(configs: List[Tuple[bool, str, int]], rng: Any, base_
 
 
 def all_configs() -> List[Tuple[bool, str, int]]:
-    return [(nopf, cert, poi) for nopf in (False, True) for cert in 'nyx' for poi in range(len(PO_SETS))]
+    return [(nopf, cert, poi) for nopf in (False, True) for cert in CERT_KINDS for poi in range(len(PO_SETS))]
+
+
+CERT_KINDS = 'nywxzc'
+CERT_DENIES = 'xzc'
 
 
 def perm_model_line(cfg: Tuple[bool, str, int], o: Dict[str, Any]) -> str:
@@ -374,8 +394,9 @@ def corr_perm(ctx: Ctx, res: CorrResult, hist: Hist) -> None:
     configs = all_configs()
     if ctx.tier == 'quick' and not ctx.escalated:
         configs = [(False, 'n', i) for i in range(len(PO_SETS))] + \
-                  [(False, 'y', i) for i in rng.sample(range(len(PO_SETS)), 4)] + \
-                  rng.sample([c for c in configs if c[0] or c[1] == 'x'], 8)
+                  [(False, rng.choice('yw'), i) for i in rng.sample(range(len(PO_SETS)), 4)] + \
+                  [(False, 'z', 0), (False, 'c', 0), (False, 'x', 0), (False, 'z', rng.randrange(1, len(PO_SETS)))] + \
+                  rng.sample([c for c in configs if c[0] or c[1] in CERT_DENIES], 6)
     tmp = ctx.tmpdir()
     data = pair.run(run_perm_configs(configs, rng, tmp, ctx.tier != 'quick'), timeout=600)
     lines, expect, cases = [], [], []
@@ -1238,8 +1259,9 @@ def oracle(ctx: Ctx) -> OracleResult:
     prng = ctx.subrng('oracle-perm')
     configs = all_configs()
     if ctx.tier == 'quick' and not ctx.escalated:
-        configs = [(False, prng.choice('ny'), i) for i in range(len(PO_SETS))] + \
-                  prng.sample([c for c in configs if c[0] or c[1] == 'x'], 6)
+        configs = [(False, prng.choice('nyw'), i) for i in range(len(PO_SETS))] + \
+                  [(False, 'z', 0), (False, 'c', 0), (False, 'z', 6), (True, 'w', 0)] + \
+                  prng.sample([c for c in configs if c[0] or c[1] in CERT_DENIES], 5)
     pdata = pair.run(run_perm_configs(configs, prng, tmp, ctx.tier != 'quick' or ctx.escalated), timeout=900)
     for cfg, obs in pdata:
         nopf, cert, poi = cfg
@@ -1253,7 +1275,7 @@ def oracle(ctx: Ctx) -> OracleResult:
             rep = {'kind': 'perm', 'cfg': [nopf, cert, poi], 'req': [o['kind'], 'LOOP' if o['real'] else o['host'], port, o['app']]}
             created = o['verdict'] == 'created'
             if created and not (allowed and o['app']):
-                why = 'no-port-forwarding' if nopf else ('certificate' if cert == 'x' else
+                why = 'no-port-forwarding' if nopf else ('certificate' if cert in CERT_DENIES else
                                                         ('permitopen' if not allowed else 'application-refused'))
                 res.failures.append(Failure(signature=f'forward-not-permitted:{o["kind"]}:{why}',
                                             what=f'request served although not permitted: {desc}', replay=rep))
